@@ -437,6 +437,10 @@ def build(tier='quick', seed=0):
         full.append(decl('int', t, sanitizers=[S('with', f'|x: {t}| x / 2', 'closure')],
                          validators=[V('greater_or_equal', '1', 1, 'lit'), V('less', '40', 40, 'lit')],
                          derives=['Debug', 'TryFrom', 'FromStr', 'Deserialize', 'Serialize'], tags=['sanitize']))
+        # sanitize-only / bare + TryFrom (Infallible) instead of From
+        full.append(decl('int', t, sanitizers=[S('with', f'|x| x.clamp(1, 100)', 'closure')],
+                         derives=['Debug', 'TryFrom', 'FromStr', 'Deserialize', 'Serialize'], tags=['sanitize', 'infallible']))
+        full.append(decl('int', t, derives=['Debug', 'TryFrom', 'FromStr'], tags=['bare', 'infallible']))
         # no guards at all
         full.append(decl('int', t, derives=full_derives('int', False, with_default=True),
                          default={'text': '42', 'value': 42}, tags=['bare']))
@@ -531,6 +535,8 @@ def build(tier='quick', seed=0):
         full.append(decl('float', t, sanitizers=[S('with', f'san_{t}', 'path', callee=f'san_{t}')],
                          validators=[V('finite'), V('less_or_equal', '40', 40.0, 'lit')],
                          derives=full_derives('float', True, has_finite=True, arbitrary_ok=False), tags=['sanitize']))
+        full.append(decl('float', t, sanitizers=[S('with', '|x| x.clamp(0.0, 1.0)', 'closure')],
+                         derives=['Debug', 'TryFrom', 'FromStr', 'Deserialize', 'Serialize'], tags=['sanitize', 'infallible']))
         full.append(decl('float', t, derives=full_derives('float', False, with_default=True),
                          default={'text': '1.5', 'value': 1.5}, tags=['bare']))
         full.append(decl('float', t, custom={'with_text': f'check_{t}', 'form': 'path', 'callee': f'check_{t}', 'error': 'MyErr'},
@@ -596,6 +602,9 @@ def build(tier='quick', seed=0):
                          default={'text': '"  Hello  "', 'value': '  Hello  '}, tags=['sanitize']))
         full.append(decl('string', 'String', sanitizers=slist(sl), validators=list(base_vs),
                          derives=full_derives('string', True), tags=['sanitize']))
+    for sl in san_lists[:5]:
+        full.append(decl('string', 'String', sanitizers=slist(sl), derives=['Debug', 'TryFrom', 'FromStr', 'Deserialize', 'Serialize'],
+                         tags=['sanitize', 'infallible']))
     for i, w in enumerate(withs):
         full.append(decl('string', 'String', sanitizers=[S('trim'), w], validators=[V('not_empty')],
                          derives=full_derives('string', True, arbitrary_ok=False), tags=['sanitize']))
@@ -680,6 +689,10 @@ def build(tier='quick', seed=0):
             if pred:
                 full.append(decl('any', inner, generics=g, sanitizers=[S('with', san, 'closure')],
                                  validators=[V('predicate', pred, form='closure')], derives=no_arb + ['TryFrom'], tags=['sanitize']))
+    full.append(decl('any', 'Point', sanitizers=[S('with', 'san_point', 'path', callee='san_point')],
+                     derives=['Debug', 'TryFrom', 'FromStr'], tags=['sanitize', 'infallible']))
+    full.append(decl('any', 'Vec<T>', generics='<T>', sanitizers=[S('with', '|mut v| { v.truncate(3); v }', 'closure')],
+                     derives=['Debug', 'TryFrom', 'Deserialize', 'Serialize'], tags=['sanitize', 'infallible']))
     full.append(decl('any', 'Point', sanitizers=[S('with', 'san_point', 'path', callee='san_point')],
                      validators=[V('predicate', 'pred_point', form='path', callee='pred_point')],
                      derives=['Debug', 'TryFrom', 'FromStr', 'Default'],
